@@ -271,7 +271,8 @@ def stepLogin (s : State) (h utype : Nat) (pin : Option Bytes) : State × Resp :
       match findTok s.slots ss.slot with
       | none => rOnly s CKR.GENERAL_ERROR
       | some t =>
-        if utype == 0 then        -- CKU_SO
+        match utype with
+        | 0 =>                     -- CKU_SO
           if s.handles.haveROSession ss.slot then rOnly s CKR.SESSION_READ_ONLY_EXISTS
           else if t.userIn then rOnly s CKR.USER_ANOTHER_ALREADY_LOGGED_IN
           else if t.soIn then rOnly s CKR.USER_ALREADY_LOGGED_IN
@@ -279,7 +280,7 @@ def stepLogin (s : State) (h utype : Nat) (pin : Option Bytes) : State × Resp :
             ({ s with slots := setTok s.slots ss.slot { t with soLow := true } }, { rv := CKR.PIN_INCORRECT })
           else
             ({ s with slots := setTok s.slots ss.slot { t with soLow := false, soIn := true } }, { rv := CKR.OK })
-        else if utype == 1 then   -- CKU_USER
+        | 1 =>                     -- CKU_USER
           if t.soIn then rOnly s CKR.USER_ANOTHER_ALREADY_LOGGED_IN
           else if t.userIn then rOnly s CKR.USER_ALREADY_LOGGED_IN
           else match t.userPin with
@@ -289,9 +290,9 @@ def stepLogin (s : State) (h utype : Nat) (pin : Option Bytes) : State × Resp :
                 ({ s with slots := setTok s.slots ss.slot { t with userLow := true } }, { rv := CKR.PIN_INCORRECT })
               else
                 ({ s with slots := setTok s.slots ss.slot { t with userLow := false, userIn := true } }, { rv := CKR.OK })
-        else if utype == 2 then   -- CKU_CONTEXT_SPECIFIC: no operation requested re-authentication
+        | 2 =>                     -- CKU_CONTEXT_SPECIFIC: no operation requested re-authentication
           rOnly s CKR.OPERATION_NOT_INITIALIZED
-        else rOnly s CKR.USER_TYPE_INVALID
+        | _ => rOnly s CKR.USER_TYPE_INVALID
 
 def stepLogout (s : State) (h : Nat) : State × Resp :=
   match s.handles.getSess h with
